@@ -23,6 +23,14 @@
    ModelD8 proves that everything in the class does, and the faithful configuration
    (Unconditional = TRUE) makes TLC produce the counterexample.
 
+   BYTE TRANSPARENCY.  Besides the structural alphabet the case space contains ExtraNames /
+   ExtraFileNames: names made of the bytes a naive writer or parser could trip on although this
+   format gives them no meaning -- '%' and whole format directives ("%d", "%s", "%%", "a%20b",
+   "%!d(MISSING)"), backslash, quotes, tab, CR, '#', braces, YAML-ish scalars.  The writer must copy a
+   name VERBATIM; mechanism switch M_NamesVerbatim (TRUE = the code).  The mutant FALSE = "the name is
+   interpreted as a format" (every "%x" pair is consumed / expanded the way fmt does with a missing
+   operand) must be REJECTED by TLC (R_RoundTrip violated).
+
    One behaviour = one table (kept in the variable t).  Export prints every table with the
    declaratively expected result (the table itself) and the transcription's prediction; the
    real save/load pair is executed on every exported table by the Go harness.                *)
@@ -32,13 +40,14 @@ CONSTANTS NameSyms,       \* name symbols: 1 'a'  2 ':'  3 ' '  4 '\n'  5 '-'  6
           MaxName1,       \* length bound of the first stream name
           MaxName2,       \* length bound of the second stream name
           Unconditional,  \* TRUE: check RoundTrip for every table (faithful: D8 counterexample expected)
+          M_NamesVerbatim,       \* mechanism: names are copied byte for byte (FALSE = mutant: name used as a format string)
           M_ZeroOffsetsWritten   \* mechanism: streams with offset 0 are written like any other (FALSE = mutant)
 
 VARIABLE t
 
 NL == 10
 SymBytes(s) == CASE s = 1 -> <<97>> [] s = 2 -> <<58>> [] s = 3 -> <<32>> [] s = 4 -> <<10>>
-                 [] s = 5 -> <<45>> [] s = 6 -> <<195, 169>> [] OTHER -> <<120>>
+                 [] s = 5 -> <<45>> [] s = 6 -> <<195, 169>> [] OTHER -> <<s>>     \* s > 6: the byte itself
 
 RECURSIVE Bytes(_)
 Bytes(name) == IF name = <<>> THEN <<>> ELSE SymBytes(Head(name)) \o Bytes(Tail(name))
@@ -67,6 +76,73 @@ ParseInt(s)  == IF \E n \in NumIds \ {64} : Digits(n) = s THEN [ok |-> TRUE, n |
 RECURSIVE SeqsUpTo(_, _)
 SeqsUpTo(S, n) == IF n = 0 THEN {<<>>} ELSE LET r == SeqsUpTo(S, n - 1) IN r \cup {Append(x, s) : x \in {y \in r : Len(y) = n - 1}, s \in S}
 
+ExtraNames == { <<37>>,   \* '%'
+                <<37,100>>,   \* '%d'
+                <<37,115>>,   \* '%s'
+                <<37,118>>,   \* '%v'
+                <<37,37>>,   \* '%%'
+                <<97,37>>,   \* 'a%'
+                <<37,97>>,   \* '%a'
+                <<97,37,50,48,98>>,   \* 'a%20b'
+                <<117,115,97,103,101,37,100,45,114,101,112,111,114,116>>,   \* 'usage%d-report'
+                <<37,33,100,40,77,73,83,83,73,78,71,41>>,   \* '%!d(MISSING)'
+                <<37,91,49,93,100>>,   \* '%[1]d'
+                <<37,53,46,50,102>>,   \* '%5.2f'
+                <<37,33,40,78,79,86,69,82,66,41>>,   \* '%!(NOVERB)'
+                <<92>>,   \* '\\'
+                <<92,110>>,   \* '\\n'
+                <<97,92>>,   \* 'a\\'
+                <<34>>,   \* '"'
+                <<34,97,34>>,   \* '"a"'
+                <<39>>,   \* "'"
+                <<39,97,39>>,   \* "'a'"
+                <<9>>,   \* '\t'
+                <<97,9,98>>,   \* 'a\tb'
+                <<35>>,   \* '#'
+                <<35,32,97>>,   \* '# a'
+                <<97,32,35,98>>,   \* 'a #b'
+                <<123>>,   \* '{'
+                <<125>>,   \* '}'
+                <<123,97,125>>,   \* '{a}'
+                <<123,123,97,125,125>>,   \* '{{a}}'
+                <<36,123,97,125>>,   \* '${a}'
+                <<97,13,98>>,   \* 'a\rb'
+                <<96,97,96>>,   \* '`a`'
+                <<42>>,   \* '*'
+                <<38,97>>,   \* '&a'
+                <<33,97>>,   \* '!a'
+                <<124>>,   \* '|'
+                <<62>>,   \* '>'
+                <<91,97,93>>,   \* '[a]'
+                <<64,97>>,   \* '@a'
+                <<126>>,   \* '~'
+                <<110,117,108,108>>,   \* 'null'
+                <<116,114,117,101>>,   \* 'true'
+                <<48>>,   \* '0'
+                <<45,49>>,   \* '-1'
+                <<97,44,98>>,   \* 'a,b'
+                <<97,61,98>>,   \* 'a=b'
+                <<97,59,98>>,   \* 'a;b'
+                <<97,63>>,   \* 'a?'
+                <<60,97,62>>,   \* '<a>'
+                <<36,40,97,41>> }   \* '$(a)'
+ExtraFileNames == { <<114,101,112,111,114,116,37,50,48,120,46,108,111,103>>,   \* 'report%20x.log'
+                    <<117,115,97,103,101,37,100,45,114,101,112,111,114,116,46,108,111,103>>,   \* 'usage%d-report.log'
+                    <<49,48,48,37,46,108,111,103>>,   \* '100%.log'
+                    <<97,92,98,46,108,111,103>>,   \* 'a\\b.log'
+                    <<105,116,39,115,32,34,120,34,46,108,111,103>>,   \* 'it\'s "x".log'
+                    <<97,9,98,35,123,99,125,46,108,111,103>> }   \* 'a\tb#{c}.log'
+
+\* the mutant writer: the name goes through a formatter with no operands left for it:
+\* "%%" -> "%", "%x" -> "%!x(MISSING)", a trailing '%' -> "%!(NOVERB)"
+RECURSIVE Fmt(_)
+Fmt(b) == IF b = <<>> THEN <<>>
+          ELSE IF b[1] # 37 THEN <<b[1]>> \o Fmt(Tail(b))
+          ELSE IF Len(b) = 1 THEN <<37,33,40,78,79,86,69,82,66,41>>
+          ELSE IF b[2] = 37 THEN <<37>> \o Fmt(SubSeq(b, 3, Len(b)))
+          ELSE <<37,33,b[2],40,77,73,83,83,73,78,71,41>> \o Fmt(SubSeq(b, 3, Len(b)))
+NameOut(name) == IF M_NamesVerbatim THEN Bytes(name) ELSE Fmt(Bytes(name))
+
 Names1 == SeqsUpTo(NameSyms, MaxName1)
 Names2 == SeqsUpTo(NameSyms, MaxName2)
 FileNames == {<<1>>, <<1, 3, 1>>, <<1, 4, 1>>}             \* "a"  "a a"  "a\na"
@@ -75,13 +151,21 @@ Offs == {0, 1, 63}                                          \* 0, 1, 2^63-1
 Job(f, ino, src, strs) == [file |-> f, inode |-> ino, src |-> src, streams |-> strs]
 Stream(n, o) == [name |-> n, off |-> o]
 
-Tables ==
+StructTables ==      \* the structural alphabet, exhaustively
   { [jobs |-> <<Job(f, big, big, s1)>> \o j2] :
       f \in FileNames, big \in {1, 64},
       s1 \in { <<Stream(n1, o1)>> : n1 \in Names1, o1 \in Offs }
              \cup { <<Stream(n1, o1), Stream(n2, o2)>> : n1 \in Names1, o1 \in Offs, n2 \in Names2, o2 \in {0, 1} }
              \cup { <<>> },
       j2 \in { <<>>, <<Job(<<1>>, 2, 2, <<Stream(<<1>>, 2)>>)>> } }
+ExtraTables ==       \* byte transparency: every extra stream name x every file name, every extra file name
+  { [jobs |-> <<Job(f, big, big, s1)>> \o j2] :
+      f \in FileNames \cup ExtraFileNames, big \in {1, 64},
+      s1 \in { <<Stream(n1, o1)>> : n1 \in ExtraNames, o1 \in Offs }
+             \cup { <<Stream(n1, 1), Stream(n2, 1)>> : n1 \in ExtraNames, n2 \in {<<1>>, <<37, 100>>} }
+             \cup { <<Stream(<<1>>, 1)>> },
+      j2 \in { <<>>, <<Job(<<1>>, 2, 2, <<Stream(<<1>>, 2)>>)>> } }
+Tables == StructTables \cup ExtraTables
 
 \* a SliceMap holds each stream name once
 WellFormed(tb) == \A k \in 1..Len(tb.jobs) :
@@ -92,12 +176,12 @@ WellFormed(tb) == \A k \in 1..Len(tb.jobs) :
 RECURSIVE PrintStreams(_)
 PrintStreams(ss) == IF ss = <<>> THEN <<>>
                     ELSE IF ~M_ZeroOffsetsWritten /\ Head(ss).off = 0 THEN PrintStreams(Tail(ss))   \* mutant only
-                    ELSE Indent \o Bytes(Head(ss).name) \o Sep \o Digits(Head(ss).off) \o <<NL>> \o PrintStreams(Tail(ss))
+                    ELSE Indent \o NameOut(Head(ss).name) \o Sep \o Digits(Head(ss).off) \o <<NL>> \o PrintStreams(Tail(ss))
 
 PrintJob(j) ==
   IF j.streams = <<>> THEN <<>>                                     \* len(job.offsets) == 0: skipped
   ELSE IF ~M_ZeroOffsetsWritten /\ \A i \in 1..Len(j.streams) : j.streams[i].off = 0 THEN <<>>       \* mutant only
-  ELSE KwFile \o Bytes(j.file) \o <<NL>> \o KwInode \o Digits(j.inode) \o <<NL>>
+  ELSE KwFile \o NameOut(j.file) \o <<NL>> \o KwInode \o Digits(j.inode) \o <<NL>>
        \o KwSrc \o Digits(j.src) \o <<NL>> \o KwTs \o Digits(0) \o <<NL>>
        \o KwStreams \o <<NL>> \o PrintStreams(j.streams)
 
